@@ -156,10 +156,13 @@ command body runs.  Not modelled: signals during `takeLocks` (no handler yet: SI
 which gives up what it has taken; SIGTERM kills the process where it stands) and during `giveLocks`. -/
 
 /-- SIGINT / SIGTERM delivered to process `i`: in its command body the handler starts the release, after which the
-process dies; elsewhere not modelled (no effect) -/
+process dies; about to call `mkdir` (nothing of its in this lock directory) it just dies; elsewhere not modelled (no
+effect) -/
 def interrupt (s : St) (i : Pid) : St :=
   match s.pc i with
   | .hold => setPC s i (.isdir .die)
+  | .isdir .fin => setPC s i (.isdir .die)     -- `giveLocks` is about to start on the lock: the handler's pass takes over
+  | .mkdir _ => setPC s i .killed
   | _ => s
 
 /-- an event of a schedule: the next file-system call of a process, or a signal delivered to it -/
